@@ -55,6 +55,26 @@ theorem assembly_row_count (c : CodeData) (H : List (List Nat))
     (hH : stabilizerMatrixFold c = some H) : H.length = c.stabOps.length :=
   mapM_some_length _ _ _ hH
 
+/-- The assembly raises `KeyError` exactly when some generator touches a coordinate that is
+    not a qubit: the matrix exists iff every support lies inside the qubit set. -/
+theorem assembly_succeeds_iff (c : CodeData) (hnd : c.qubits.Nodup) :
+    (stabilizerMatrixFold c).isSome = true ↔
+      ∀ op ∈ c.stabOps, opSupported c.qubits op = true := by
+  unfold stabilizerMatrixFold
+  rw [mapM_isSome_iff]
+  constructor
+  · intro h op hop
+    have := h op hop
+    rw [stabRowFold_eq_stabRow _ _ hnd] at this
+    unfold stabRow toBsf at this
+    cases hs : opSupported c.qubits op
+    · simp [hs] at this
+    · rfl
+  · intro h op hop
+    rw [stabRowFold_eq_stabRow _ _ hnd]
+    unfold stabRow toBsf
+    simp [h op hop]
+
 /-! ### 3. rows of dict operators are binary, of length 2n -/
 
 /-- a dict operator has 0/1 entries before any reduction … -/
